@@ -1036,11 +1036,8 @@ bool Process::setEnvironmentVariable(const String& name, const String& value)
 
 bool Process::Arguments::nextChar()
 {
-  if(*arg)
-  {
-    ++arg;
+  if(*arg) // next letter of a cluster of short options
     return true;
-  }
   if(argv < argvEnd)
   {
     arg = *(argv++);
